@@ -1,8 +1,31 @@
 package main
 
 // Structural obligations: facts about the SSA of the current tree that are
-// decided by analysis of the code rather than by an SMT query (goroutine
-// roots and recover frames, lock discipline, encapsulation, publication).
+// decided by analysis of the code rather than by an SMT query (atomic
+// read-modify-write discipline, encapsulation of representation fields,
+// goroutine roots and recover frames, lock discipline).
+//
+//   rule atomic_rmw Struct.field prop=.. : no sync/atomic Store/Swap to the field stores a value
+//        computed from an earlier read of the same field (a lost-update window);
+//        CompareAndSwap is the accepted way to do that.
+//   rule atomic_only Struct.field [except=F,G] prop=.. : the field is accessed only through
+//        sync/atomic (except in the listed functions, e.g. constructors).
+//   rule encapsulated Struct.field funcs=F,G,.. prop=.. : only the listed functions touch the field.
+//   rule goroutine_roots prop=.. [assume=F,G] : every `go` statement of the package starts a function that
+//        cannot let a panic escape: it defers (unconditionally, first thing) a function that calls
+//        recover() itself, or it has a verified `nopanic` contract.
+//   rule recovers Func prop=.. : Func defers, before anything that can panic, a function that calls
+//        recover() directly.
+
+import (
+	"fmt"
+	"go/token"
+	"go/types"
+	"sort"
+	"strings"
+
+	"golang.org/x/tools/go/ssa"
+)
 
 func (e *Engine) structuralObligations(prop string) []*Obligation {
 	var out []*Obligation
@@ -21,6 +44,482 @@ func (e *Engine) structuralObligations(prop string) []*Obligation {
 	return out
 }
 
-func (e *Engine) evalRule(r *StructRule) []*Obligation {
+func (e *Engine) pkgFunctions(pkg string) []*ssa.Function {
+	var out []*ssa.Function
+	for k, fn := range e.funcs {
+		if strings.HasPrefix(k, pkg+"::") {
+			out = append(out, fn)
+		}
+	}
+	sort.Slice(out, func(i, j int) bool { return e.fnKey[out[i]] < e.fnKey[out[j]] })
+	return out
+}
+
+func (e *Engine) structObl(r *StructRule, name string, ok bool, msg string) *Obligation {
+	return &Obligation{Name: shortPkg(r.Pkg) + "#struct:" + r.Kind + ":" + name, Kind: "struct", Struct: true, StructOK: ok, StructMsg: msg,
+		Props: r.Props, Pos: fmt.Sprintf("%s:%d", strings.TrimPrefix(r.File, e.repo+"/"), r.Line), Func: r.Pkg}
+}
+
+func ruleOpt(r *StructRule, key string) []string {
+	for _, a := range r.Args {
+		if strings.HasPrefix(a, key+"=") {
+			return strings.Split(strings.TrimPrefix(a, key+"="), ",")
+		}
+	}
 	return nil
+}
+
+func rulePos(r *StructRule) []string {
+	var out []string
+	for _, a := range r.Args {
+		if !strings.Contains(a, "=") {
+			out = append(out, a)
+		}
+	}
+	return out
+}
+
+// isField: v is &x.f for struct named sname, field fname
+func isFieldAddr(v ssa.Value, pkg, sname, fname string) bool {
+	fa, ok := v.(*ssa.FieldAddr)
+	if !ok {
+		return false
+	}
+	st := fa.X.Type().Underlying().(*types.Pointer).Elem()
+	n := namedOf(st)
+	s, isS := isStruct(st)
+	if n == nil || !isS || n.Obj().Pkg() == nil {
+		return false
+	}
+	return n.Obj().Pkg().Path() == pkg && n.Obj().Name() == sname && s.Field(fa.Field).Name() == fname
+}
+
+func atomicCallKind(in ssa.Instruction) (kind string, cc *ssa.CallCommon) {
+	c, ok := in.(ssa.CallInstruction)
+	if !ok {
+		return "", nil
+	}
+	f := c.Common().StaticCallee()
+	if f == nil || f.Pkg == nil || f.Pkg.Pkg.Path() != "sync/atomic" {
+		return "", nil
+	}
+	n := f.Name()
+	switch {
+	case strings.HasPrefix(n, "Load"):
+		return "load", c.Common()
+	case strings.HasPrefix(n, "Store"):
+		return "store", c.Common()
+	case strings.HasPrefix(n, "Add"):
+		return "add", c.Common()
+	case strings.HasPrefix(n, "Swap"):
+		return "swap", c.Common()
+	case strings.HasPrefix(n, "CompareAndSwap"):
+		return "cas", c.Common()
+	}
+	return "", nil
+}
+
+func (e *Engine) evalRule(r *StructRule) []*Obligation {
+	pos := rulePos(r)
+	switch r.Kind {
+	case "atomic_rmw", "atomic_only", "encapsulated":
+		if len(pos) < 1 || !strings.Contains(pos[0], ".") {
+			return []*Obligation{e.structObl(r, "malformed", false, "rule needs Struct.field")}
+		}
+		parts := strings.SplitN(pos[0], ".", 2)
+		sname, fname := parts[0], parts[1]
+		switch r.Kind {
+		case "atomic_rmw":
+			return e.ruleAtomicRMW(r, sname, fname)
+		case "atomic_only":
+			return e.ruleAtomicOnly(r, sname, fname)
+		default:
+			return e.ruleEncapsulated(r, sname, fname)
+		}
+	case "goroutine_roots":
+		return e.ruleGoRoots(r)
+	case "recovers":
+		var out []*Obligation
+		for _, fnk := range pos {
+			fn := e.funcs[r.Pkg+"::"+fnk]
+			if fn == nil {
+				out = append(out, e.structObl(r, fnk, false, "function not found"))
+				continue
+			}
+			ok, msg := recoversFirst(fn)
+			out = append(out, e.structObl(r, fnk, ok, msg))
+		}
+		return out
+	}
+	return []*Obligation{e.structObl(r, "unknown", false, "unknown rule kind "+r.Kind)}
+}
+
+// ---------------------------------------------------------------------
+// data dependence inside a function family (function + its closures)
+
+type depCtx struct {
+	seen   map[ssa.Value]bool
+	stores map[ssa.Value][]ssa.Value // cell root -> values stored
+}
+
+func cellRoot(v ssa.Value) ssa.Value {
+	for {
+		switch x := v.(type) {
+		case *ssa.FreeVar:
+			// find binding in the parent's MakeClosure
+			fn := x.Parent()
+			idx := -1
+			for i, fv := range fn.FreeVars {
+				if fv == x {
+					idx = i
+				}
+			}
+			par := fn.Parent()
+			if par == nil || idx < 0 {
+				return v
+			}
+			var bound ssa.Value
+			for _, b := range par.Blocks {
+				for _, in := range b.Instrs {
+					if mc, ok := in.(*ssa.MakeClosure); ok && mc.Fn == fn && idx < len(mc.Bindings) {
+						bound = mc.Bindings[idx]
+					}
+				}
+			}
+			if bound == nil {
+				return v
+			}
+			v = bound
+		default:
+			return v
+		}
+	}
+}
+
+func family(fn *ssa.Function) []*ssa.Function {
+	root := fn
+	for root.Parent() != nil {
+		root = root.Parent()
+	}
+	var out []*ssa.Function
+	var walk func(f *ssa.Function)
+	walk = func(f *ssa.Function) {
+		out = append(out, f)
+		for _, a := range f.AnonFuncs {
+			walk(a)
+		}
+	}
+	walk(root)
+	return out
+}
+
+func newDepCtx(fn *ssa.Function) *depCtx {
+	d := &depCtx{seen: map[ssa.Value]bool{}, stores: map[ssa.Value][]ssa.Value{}}
+	for _, f := range family(fn) {
+		for _, b := range f.Blocks {
+			for _, in := range b.Instrs {
+				if st, ok := in.(*ssa.Store); ok {
+					r := cellRoot(st.Addr)
+					d.stores[r] = append(d.stores[r], st.Val)
+				}
+			}
+		}
+	}
+	return d
+}
+
+// reaches: does the value v depend on a value satisfying pred?
+func (d *depCtx) reaches(v ssa.Value, pred func(ssa.Value) bool) bool {
+	if v == nil || d.seen[v] {
+		return false
+	}
+	d.seen[v] = true
+	if pred(v) {
+		return true
+	}
+	switch x := v.(type) {
+	case *ssa.UnOp:
+		if x.Op == token.MUL {
+			// load: from a local cell -> everything stored there
+			r := cellRoot(x.X)
+			if _, isAlloc := r.(*ssa.Alloc); isAlloc {
+				for _, sv := range d.stores[r] {
+					if d.reaches(sv, pred) {
+						return true
+					}
+				}
+				return false
+			}
+			return d.reaches(x.X, pred)
+		}
+	case *ssa.Phi:
+		for _, e := range x.Edges {
+			if d.reaches(e, pred) {
+				return true
+			}
+		}
+		return false
+	case *ssa.Const, *ssa.Global, *ssa.Function, *ssa.Parameter, *ssa.Builtin:
+		return false
+	case *ssa.FreeVar:
+		r := cellRoot(x)
+		if r != v {
+			return d.reaches(r, pred)
+		}
+		return false
+	case *ssa.Alloc:
+		for _, sv := range d.stores[x] {
+			if d.reaches(sv, pred) {
+				return true
+			}
+		}
+		return false
+	}
+	if in, ok := v.(ssa.Instruction); ok {
+		for _, op := range in.Operands(nil) {
+			if *op != nil && d.reaches(*op, pred) {
+				return true
+			}
+		}
+	}
+	return false
+}
+
+func (e *Engine) ruleAtomicRMW(r *StructRule, sname, fname string) []*Obligation {
+	var out []*Obligation
+	n := 0
+	for _, fn := range e.pkgFunctions(r.Pkg) {
+		for _, b := range fn.Blocks {
+			for _, in := range b.Instrs {
+				kind, cc := atomicCallKind(in)
+				if kind != "store" && kind != "swap" {
+					continue
+				}
+				if !isFieldAddr(cc.Args[0], r.Pkg, sname, fname) {
+					continue
+				}
+				n++
+				d := newDepCtx(fn)
+				readsSame := func(v ssa.Value) bool {
+					if c, ok := v.(*ssa.Call); ok {
+						k, c2 := atomicCallKind(c)
+						if (k == "load" || k == "add" || k == "swap") && isFieldAddr(c2.Args[0], r.Pkg, sname, fname) {
+							return true
+						}
+					}
+					if u, ok := v.(*ssa.UnOp); ok && u.Op == token.MUL && isFieldAddr(u.X, r.Pkg, sname, fname) {
+						return true
+					}
+					return false
+				}
+				bad := d.reaches(cc.Args[1], readsSame)
+				p := e.fset.Position(in.Pos())
+				name := fmt.Sprintf("%s.%s:%s:store#%d", sname, fname, e.fnKey[fn], countIn(out, e.fnKey[fn])+1)
+				msg := fmt.Sprintf("%s:%d: value stored to %s.%s", strings.TrimPrefix(p.Filename, e.repo+"/"), p.Line, sname, fname)
+				if bad {
+					msg += " is computed from an earlier read of the same field: concurrent callers can lose updates (use CompareAndSwap or Add)"
+				} else {
+					msg += " does not depend on an earlier read of the field"
+				}
+				out = append(out, e.structObl(r, name, !bad, msg))
+			}
+		}
+	}
+	out = append(out, e.structObl(r, sname+"."+fname+":sites", true, fmt.Sprintf("%d atomic store sites examined", n)))
+	return out
+}
+
+func countIn(obls []*Obligation, key string) int {
+	c := 0
+	for _, o := range obls {
+		if strings.Contains(o.Name, ":"+key+":") {
+			c++
+		}
+	}
+	return c
+}
+
+func (e *Engine) ruleAtomicOnly(r *StructRule, sname, fname string) []*Obligation {
+	except := map[string]bool{}
+	for _, x := range ruleOpt(r, "except") {
+		except[x] = true
+	}
+	var bad []string
+	n := 0
+	for _, fn := range e.pkgFunctions(r.Pkg) {
+		if except[e.fnKey[fn]] {
+			continue
+		}
+		for _, b := range fn.Blocks {
+			for _, in := range b.Instrs {
+				fa, ok := in.(*ssa.FieldAddr)
+				if !ok || !isFieldAddr(fa, r.Pkg, sname, fname) {
+					continue
+				}
+				n++
+				for _, ref := range *fa.Referrers() {
+					if _, isDbg := ref.(*ssa.DebugRef); isDbg {
+						continue
+					}
+					if k, _ := atomicCallKind(ref); k != "" {
+						continue
+					}
+					p := e.fset.Position(ref.Pos())
+					bad = append(bad, fmt.Sprintf("%s (%s:%d)", e.fnKey[fn], strings.TrimPrefix(p.Filename, e.repo+"/"), p.Line))
+				}
+			}
+		}
+	}
+	msg := fmt.Sprintf("%d address computations of %s.%s, all used only by sync/atomic", n, sname, fname)
+	if len(bad) > 0 {
+		msg = "non-atomic access to " + sname + "." + fname + " in " + strings.Join(bad, ", ")
+	}
+	return []*Obligation{e.structObl(r, sname+"."+fname, len(bad) == 0, msg)}
+}
+
+func (e *Engine) ruleEncapsulated(r *StructRule, sname, fname string) []*Obligation {
+	allowed := map[string]bool{}
+	for _, x := range ruleOpt(r, "funcs") {
+		allowed[x] = true
+	}
+	var bad []string
+	n := 0
+	// the field may be touched from any package of the module if exported; scan all module functions
+	for k, fn := range e.funcs {
+		_ = k
+		for _, b := range fn.Blocks {
+			for _, in := range b.Instrs {
+				touch := false
+				switch x := in.(type) {
+				case *ssa.FieldAddr:
+					touch = isFieldAddr(x, r.Pkg, sname, fname)
+				case *ssa.Field:
+					n0 := namedOf(x.X.Type())
+					if s, ok := isStruct(x.X.Type()); ok && n0 != nil && n0.Obj().Pkg() != nil {
+						touch = n0.Obj().Pkg().Path() == r.Pkg && n0.Obj().Name() == sname && s.Field(x.Field).Name() == fname
+					}
+				}
+				if !touch {
+					continue
+				}
+				n++
+				root := fn
+				for root.Parent() != nil {
+					root = root.Parent()
+				}
+				if fn.Pkg.Pkg.Path() == r.Pkg && (allowed[e.fnKey[fn]] || allowed[e.fnKey[root]]) {
+					continue
+				}
+				p := e.fset.Position(in.Pos())
+				bad = append(bad, fmt.Sprintf("%s.%s (%s:%d)", shortPkg(fn.Pkg.Pkg.Path()), e.fnKey[fn], strings.TrimPrefix(p.Filename, e.repo+"/"), p.Line))
+			}
+		}
+	}
+	sort.Strings(bad)
+	msg := fmt.Sprintf("%d accesses of %s.%s, all inside %s", n, sname, fname, strings.Join(ruleOpt(r, "funcs"), ","))
+	if len(bad) > 0 {
+		msg = "access to " + sname + "." + fname + " outside the functions under contract: " + strings.Join(bad, ", ")
+	}
+	return []*Obligation{e.structObl(r, sname+"."+fname, len(bad) == 0, msg)}
+}
+
+// ---------------------------------------------------------------------
+// recover frames
+
+// callsRecoverDirectly: fn's own body contains a call to the builtin recover()
+func callsRecoverDirectly(fn *ssa.Function) bool {
+	for _, b := range fn.Blocks {
+		for _, in := range b.Instrs {
+			if c, ok := in.(*ssa.Call); ok {
+				if bi, ok := c.Call.Value.(*ssa.Builtin); ok && bi.Name() == "recover" {
+					return true
+				}
+			}
+		}
+	}
+	return false
+}
+
+// recoversFirst: the entry block of fn registers, before any call that could panic, a deferred
+// function that itself calls recover().
+func recoversFirst(fn *ssa.Function) (bool, string) {
+	if len(fn.Blocks) == 0 {
+		return false, "no body"
+	}
+	for _, in := range fn.Blocks[0].Instrs {
+		switch x := in.(type) {
+		case *ssa.Defer:
+			var callee *ssa.Function
+			if mc, ok := x.Call.Value.(*ssa.MakeClosure); ok {
+				callee = mc.Fn.(*ssa.Function)
+			} else if f := x.Call.StaticCallee(); f != nil {
+				callee = f
+			}
+			if callee != nil && callsRecoverDirectly(callee) {
+				return true, "defers " + callee.Name() + ", which calls recover() itself, before anything that can panic"
+			}
+			if callee != nil {
+				// a deferred function that calls a helper which calls recover(): ineffective by Go's rules
+				continue
+			}
+		case *ssa.Call:
+			if _, ok := x.Call.Value.(*ssa.Builtin); ok {
+				continue
+			}
+			return false, "calls " + x.Call.Value.Name() + " before an effective recover frame is in place"
+		case *ssa.Go, *ssa.Panic, *ssa.Send, *ssa.Select, *ssa.TypeAssert, *ssa.MapUpdate:
+			if ta, ok := in.(*ssa.TypeAssert); ok && ta.CommaOk {
+				continue
+			}
+			return false, fmt.Sprintf("%T before an effective recover frame is in place", in)
+		}
+	}
+	return false, "no deferred function that calls recover() directly in the entry block"
+}
+
+func (e *Engine) ruleGoRoots(r *StructRule) []*Obligation {
+	assume := map[string]bool{}
+	for _, x := range ruleOpt(r, "assume") {
+		assume[x] = true
+	}
+	var out []*Obligation
+	for _, fn := range e.pkgFunctions(r.Pkg) {
+		k := 0
+		for _, b := range fn.Blocks {
+			for _, in := range b.Instrs {
+				g, ok := in.(*ssa.Go)
+				if !ok {
+					continue
+				}
+				k++
+				var callee *ssa.Function
+				if mc, ok := g.Call.Value.(*ssa.MakeClosure); ok {
+					callee = mc.Fn.(*ssa.Function)
+				} else if f := g.Call.StaticCallee(); f != nil {
+					callee = f
+				}
+				name := fmt.Sprintf("%s:go#%d", e.fnKey[fn], k)
+				p := e.fset.Position(g.Pos())
+				where := fmt.Sprintf("%s:%d", strings.TrimPrefix(p.Filename, e.repo+"/"), p.Line)
+				if callee == nil {
+					out = append(out, e.structObl(r, name, false, where+": goroutine started from a function value: cannot establish a recover frame"))
+					continue
+				}
+				ck := e.fnKey[callee]
+				if callee.Pkg != nil {
+					if c, ok := e.cs.Funcs[callee.Pkg.Pkg.Path()+"::"+ck]; ok && c.Kind == "func" && c.Flags["nopanic"] != "" {
+						out = append(out, e.structObl(r, name+":"+ck, true, where+": "+ck+" has a verified nopanic contract"))
+						continue
+					}
+				}
+				if assume[ck] {
+					out = append(out, e.structObl(r, name+":"+ck, true, where+": "+ck+" assumed not to panic (listed assumption)"))
+					continue
+				}
+				ok2, msg := recoversFirst(callee)
+				out = append(out, e.structObl(r, name+":"+ck, ok2, where+": "+ck+": "+msg))
+			}
+		}
+	}
+	return out
 }
